@@ -657,7 +657,7 @@ func isTriggerOp(t *Term) bool {
 	switch t.Op {
 	case "select":
 		return true
-	case "and", "or", "not", "=>", "ite", "=", "+", "-", "*", "<", "<=", ">", ">=", "store", "forall", "exists", "const-array", "div", "mod", "distinct":
+	case "and", "or", "not", "=>", "ite", "=", "+", "-", "*", "<", "<=", ">", ">=", "store", "forall", "exists", "const-array", "div", "mod", "distinct", "slot":
 		return false
 	}
 	if strings.HasPrefix(t.Op, "mk!") {
